@@ -1,4 +1,5 @@
 pub mod common;
+pub mod vclock;
 pub mod refcodec;
 pub mod engine;
 pub mod codec;
